@@ -48,6 +48,17 @@ def mk(kind, unit, v):
             except ValueError:
                 pass
         return q
+    if HIST[0] == 3 and kind not in NUM:
+        # the operand is a COPY (copy.copy / copy.deepcopy) of a quantity that was converted in place after the copy was taken
+        import copy as _copy
+        us = SI.units(kind)
+        q = lib(kind)(v, unit)
+        c = _copy.deepcopy(q) if len(unit) % 2 else _copy.copy(q)
+        try:
+            q.to(us[(us.index(unit) + 1) % len(us)], inplace=True)
+        except ValueError:
+            pass
+        return c
     if HIST[0] and kind not in NUM:
         us = SI.units(kind)
         u0 = us[(us.index(unit) + 1) % len(us)]
@@ -244,11 +255,13 @@ def run_combo(ctx, idx, A, op, Bq, tier, matrix=None):
     outcomes = set()
     for n_pair, (va, vb) in enumerate(pairs):
         # every other pair uses operands that went through an in-place conversion first (object history)
-        HIST[0] = (0, 1, 0, 2)[n_pair % 4]
+        HIST[0] = (0, 1, 3, 2)[n_pair % 4]
         if HIST[0] == 1:
             ctx.count('operations_on_converted_objects')
         if HIST[0] == 2:
             ctx.count('operations_on_operands_whose_copies_were_converted')
+        if HIST[0] == 3:
+            ctx.count('operations_on_copied_operands')
         res = judge(ctx, ka, ua, va, op, kb, ub, vb, case)
         outcomes.add(res[1] if res[0] == 'exc' else ('result:' + res[2] if res[0] in ('ok', 'd10') else 'bad'))
         if res[0] == 'ok' and (ka != kb or ua != ub):
